@@ -207,6 +207,13 @@ def accessors(ctx, r, F):
     }
     alt = {"hash::qratios::FuzzyHashQRatios::new": ("agg", "adt:hash::qratios::FuzzyHashQRatios::FuzzyHashQRatios",
            (("call", "hash::qratios::InnerQRatios::with_q1ratio", (("call", "hash::qratios::InnerQRatios::with_q2ratio", (("call", "hash::qratios::InnerQRatios::new", ()), P(2))), P(1))),))}
+    qsem = []  # computed on demand: None = the Q-ratio accessors hold by value on their whole domain
+
+    def qratios_by_value():
+        if not qsem:
+            qsem.append(_qratios_semantics(F))
+        return qsem[0]
+
     for path, want in simple.items():
         b = F.fn(path)
         ctx.instance(r)
@@ -215,6 +222,11 @@ def accessors(ctx, r, F):
             continue
         ps = cmpmodel.ret_paths(b)
         e = n(ps[0].ret) if len(ps) == 1 else None
+        if e != want and e != alt.get(path) and "FuzzyHashQRatios::" in path:
+            why_q = qratios_by_value()
+            ctx.ob(r, (path.split("::<")[0].rsplit("::", 2)[-2] + "::" + path.rsplit("::", 1)[-1], "shape"), why_q is None,
+                   "Q-ratio accessors by value: %s" % why_q, cfg=F.key, where=b.where(), detail={"engine": "evaluation"})
+            continue
         ctx.ob(r, (path.split("::<")[0].rsplit("::", 2)[-2] + "::" + path.rsplit("::", 1)[-1], "shape"), e == want or e == alt.get(path),
                "%s is %s; reference %s" % (path, sym.fmt(e) if e else e, sym.fmt(want)), cfg=F.key, where=b.where())
     q = F.impl_consts("hash::qratios::InnerQRatios").get("hash::qratios::InnerQRatios", {})
@@ -232,6 +244,39 @@ def accessors(ctx, r, F):
         mask = ("bin", "Shr", C(255), ("bin", "Sub", C(8), C(4)))
         want = binop("BitAnd", mask, ("bin", "Shr", bits, C(off)))
         ctx.ob(r, ("InnerQRatios::" + nm, "getter"), e == want, "generated getter %s is %s; reference (bits >> %d) & 0x0f" % (nm, sym.fmt(e) if e else e, off), cfg=F.key, trivial=True)
+
+
+def _qratios_semantics(F):
+    """None if, for every raw byte v and every pair (a, b) of 4-bit values: value(from_raw(v)) == v, q1ratio(from_raw(v)) == v & 15,
+    q2ratio(from_raw(v)) == v >> 4 and value(new(a, b)) == a | b << 4 -- by exact evaluation of the accessors (and the generated
+    bit-field functions they call); else a description."""
+    from .. import evalx
+    evalx.set_target(F)
+    Q = "hash::qratios::FuzzyHashQRatios::"
+    fns = {nm: F.fn(Q + nm) for nm in ("from_raw", "value", "q1ratio", "q2ratio", "new")}
+    if any(v is None for v in fns.values()):
+        return "accessor missing"
+    syms = {nm: sym.Sym(b) for nm, b in fns.items()}
+
+    def call(nm, *args):
+        S_ = syms[nm]
+        return evalx.run(S_, F, S_.paths(), {"symbolic": True, "params": {i + 1: a for i, a in enumerate(args)}})
+    try:
+        for v in range(256):
+            h = call("from_raw", v)
+            got = (call("value", h), call("q1ratio", h), call("q2ratio", h))
+            if got != (v, v & 15, v >> 4):
+                return "from_raw(0x%02x): (value, q1ratio, q2ratio) = %r; reference %r" % (v, got, (v, v & 15, v >> 4))
+        for a in range(16):
+            for b_ in range(16):
+                got = call("value", call("new", a, b_))
+                if got != (a | (b_ << 4)):
+                    return "new(%d, %d).value() = %r; reference %d" % (a, b_, got, a | (b_ << 4))
+    except evalx.Panics as ex:
+        return "panics (%s)" % ex
+    except evalx.Unknown as ex:
+        return "cannot evaluate: %s" % ex
+    return None
 
 
 _QSEM = {}
